@@ -125,6 +125,8 @@ type vhC09Route struct {
 	params           []vhC09Param
 	result           int
 	security         bool
+	hidden           bool
+	doc              []string // further annotation lines, verbatim
 }
 
 func vhC09Source(routes []vhC09Route) string {
@@ -154,6 +156,12 @@ func vhC09Source(routes []vhC09Route) string {
 					sb.WriteString("// @" + p.loc + "(" + p.name + ")\n")
 				}
 			}
+		}
+		if r.hidden {
+			sb.WriteString("// @Hidden\n")
+		}
+		for _, l := range r.doc {
+			sb.WriteString(l + "\n")
 		}
 		if r.security {
 			sb.WriteString("// @Security(sec, { scopes: [\"read\"] })\n")
@@ -305,9 +313,12 @@ type vhC09Run struct {
 }
 
 func vhC09Generate(routes []vhC09Route, cfg *definitions.GleeceConfig) (*vhC09Run, bool) {
+	return vhC09GenerateSrc(vhC09Source(routes), cfg)
+}
+
+func vhC09GenerateSrc(src string, cfg *definitions.GleeceConfig) (*vhC09Run, bool) {
 	symxRealLibrary("raymond")
 	symxRealLibrary("no-faults")
-	src := vhC09Source(routes)
 	fr, err := visitors.VhLoadSource(src, nil)
 	symxAssert(err == nil, "C09.fixture-compiles")
 	if err != nil {
